@@ -25,6 +25,7 @@ typedef struct { uint8_t *p; size_t len; int used; char type[8]; int fmt; } slot
 static slot_t slots[NSLOT];
 
 static int has_pc = 0, has_eb = 0, has_ed = 0, cur_curve = -1;
+static char last_dec_type[8];
 
 /* one working object per type (x = generated, y = decoded) */
 static bn_t bx, by;
@@ -544,6 +545,50 @@ static void engine_run(void) {
 			tr_hex(buf, (size_t)need);
 			if (alt) { tr_str(" alt="); tr_hex(buf2, alt_len); }
 			tr_str("\n");
+		} else if (!strcmp(tok[0], "RAW") && n >= 4) {
+			/* bytes built by the orchestrator (structured points the generators cannot reach) placed in a slot */
+			int s = atoi(tok[1]) % NSLOT;
+			long l = hex_decode(tok[3], buf, sizeof(buf));
+			if (l < 0 || !type_ok(tok[2])) { tr_printf("RAW %d %s none\n", s, tok[2]); continue; }
+			slot_set(s, buf, (size_t)l);
+			snprintf(slots[s].type, sizeof(slots[s].type), "%s", tok[2]);
+			slots[s].fmt = fmt_of_len(tok[2], (size_t)l);
+			tr_printf("RAW %d %s len=%ld now=", s, tok[2], l);
+			tr_hex(buf, (size_t)l);
+			tr_str("\n");
+		} else if (!strcmp(tok[0], "XCODE") && n >= 4) {
+			/* the object decoded last becomes the reference object and is encoded in the other format: a
+			 * decode -> encode -> decode history across formats */
+			int s = atoi(tok[1]) % NSLOT, fmt = atoi(tok[3]);
+			const char *type = tok[2];
+			int thrown = 0;
+			long need = -1;
+			if (!type_ok(type) || strcmp(last_dec_type, type) != 0) { tr_printf("ENC %d %s skipped\n", s, type); continue; }
+			if (!strcmp(type, "ep") || !strcmp(type, "g1")) ep_copy(ex, ey);
+			else if (!strcmp(type, "ep2") || !strcmp(type, "g2")) ep2_copy(e2x, e2y);
+			else if (!strcmp(type, "eb")) eb_copy(ebx, eby);
+#ifdef SIM_ED
+			else if (!strcmp(type, "ed")) ed_copy(edx, edy);
+#endif
+			else { tr_printf("ENC %d %s skipped\n", s, type); continue; }
+			RLC_TRY {
+				need = size_obj(type, fmt);
+				if (need >= 0 && (size_t)need <= sizeof(buf)) write_obj(type, fmt, buf, (size_t)need, 0);
+			} RLC_CATCH_ANY {
+				thrown = 1;
+			}
+			int code = err_get_code() != RLC_OK;
+			if (thrown || code || need < 0) {
+				tr_printf("ENC %d %s %d xcode err thrown=%d code=%d need=%ld\n", s, type, fmt, thrown, code, need);
+				slots[s].used = 0;
+				continue;
+			}
+			slot_set(s, buf, (size_t)need);
+			snprintf(slots[s].type, sizeof(slots[s].type), "%s", type);
+			slots[s].fmt = fmt;
+			tr_printf("ENC %d %s %d xcode ok len=%ld enc=", s, type, fmt, need);
+			tr_hex(buf, (size_t)need);
+			tr_str("\n");
 		} else if (!strcmp(tok[0], "FAULT") && n >= 5) {
 			int s = atoi(tok[1]) % NSLOT;
 			if (!slots[s].used) { tr_printf("FAULT %d none\n", s); continue; }
@@ -569,10 +614,12 @@ static void engine_run(void) {
 			free(in);
 			if (thrown || code) {
 				tr_printf("DEC %d %s err thrown=%d code=%d len=%zu\n", s, type, thrown, code, len);
+				last_dec_type[0] = 0;
 				continue;
 			}
 			int fmt = fmt_of_len(type, len);
 			int same = strcmp(type, slots[s].type) == 0 ? same_obj(type) : -1;
+			snprintf(last_dec_type, sizeof(last_dec_type), "%s", type);
 			uint8_t *ob = (uint8_t *)malloc(len ? len : 1);
 			memset(ob, 0x5A, len ? len : 1);
 			RLC_TRY {
